@@ -3,12 +3,12 @@ package main
 import (
 	"bytes"
 	"encoding/json"
-	"sync"
-	"sync/atomic"
 	"flag"
 	"fmt"
 	"math/rand"
 	"os"
+	"sync"
+	"sync/atomic"
 
 	"github.com/cockroachdb/pebble/vfs"
 	"github.com/jamf/regatta/regattapb"
